@@ -504,6 +504,17 @@ func (p *partition) newSubscribeLoop(ctx context.Context, groupID, consumerID st
 				}
 				return
 			}
+			if !reverse && stopOffset != waitForNewMessages && offset > stopOffset {
+				// The stop offset itself is not in the log (compacted away or
+				// removed by retention), so this message is already past the
+				// requested range. End the subscription without delivering it.
+				s := status.New(codes.ResourceExhausted, "Stop offset reached")
+				select {
+				case errCh <- s:
+				case <-cancel:
+				}
+				return
+			}
 			msgValue := m.Value()
 
 			headers := m.Headers()
